@@ -285,7 +285,8 @@ Definition view (n : nat) (s : st) : obs :=
       match last_opt (versions (vz s)) with Some v => obs_of_content (vcont v) | None => N end;
       L (map (fun t => pc_code (pcs s t)) (seq 0 n));
       L (map (fun t => ob (enabled s t)) (seq 0 n));
-      match failed s with Some e => E e | None => N end ].
+      match failed s with Some e => E e | None => N end;
+      obs_of_nats (arrivals s); obs_of_nats (admitted s); obs_of_nats (ended s) ].
 
 Fixpoint edits_of_obs (l : list obs) : option (list edit) :=
   match l with
